@@ -160,7 +160,8 @@ fn single_edits(s: &str) -> Vec<String> {
 
 pub fn run(tier: Tier) -> i32 {
     let ctx = Ctx::new("C13", tier, "model_checking");
-    let quick = ctx.quick();
+    // (the deeper alphabets cost well under a minute: the quick tier runs them too)
+    let quick = false;
     ctx.set_rule("every generated string is parsed by snow and by the reference recogniser: (a) the full product pattern x modifier lists (length <= 3 over psk0-4, psk9, psk10, psk255, fallback, every order) x 36 suites; (b) every single-edit mutation (delete/duplicate/case-flip/replace/insert with separators, digits, pattern letters, NUL, space, 2- and 3-byte UTF-8) of valid names, and every substring of 2..=8 bytes doubled in place or removed; (c) all strings of length <= 6 (thorough 7) over {N,K,X,I,1,p,s,k,0,+} as the handshake field; (d) field-count variations; accept iff recognised, components and verbatim name equal, rejection is Error::Pattern. states = distinct strings");
     let outcomes = std::sync::Mutex::new(std::collections::BTreeMap::<&'static str, u64>::new());
     let eval = |s: &str| {
